@@ -57,9 +57,15 @@ type PoolSpec struct {
 	// E-step number s (0,1,..) uses Assign[s % len(Assign)]: job k of that step is executed by
 	// thread Assign[.][k]; nil: mode "caller" (every job on the calling thread)
 	Assign [][]int `json:"e_step_job_to_thread,omitempty"`
+	// closed-form estimators, batch interface: NewObservation for data position i is called with
+	// the pool value of thread Obs[i] (Initialize and GetEstimate by the calling thread)
+	Obs []int `json:"observation_to_thread,omitempty"`
 }
 
 func (ps *PoolSpec) label() string {
+	if ps.Obs != nil {
+		return fmt.Sprintf(",pool[threads=%d,observations-split-over-threads]", ps.Threads)
+	}
 	if ps.Assign == nil {
 		return fmt.Sprintf(",pool[threads=%d,all-jobs-on-calling-thread]", ps.Threads)
 	}
@@ -387,6 +393,53 @@ func runOnPool(ps *PoolSpec, use func(s *sched), f func(p threadpool.ThreadPool)
 		defer use(nil)
 	}
 	return s.run(ps.Caller, f)
+}
+
+/* closed-form estimators: observations split over the threads
+ * -------------------------------------------------------------------------- */
+
+// The batch interface takes the pool value with every call, so an assignment of the observations
+// to the threads needs no scheduling at all: NewObservation for position i is executed by thread
+// Obs[i] with that thread's own pool value (the helper of thread t holds ThreadPool{t}), one call
+// after the other.  This is the execution of a range job whose items went to these threads, with
+// the items processed in the order of their positions.  Nothing is left behind in the pool, so one
+// scheduler per pool size serves all such cases of a process (renewed after a panic).
+var splitScheds = map[int]*sched{}
+
+func runSplit(ps *PoolSpec, init func(p threadpool.ThreadPool) error, obs func(k int, p threadpool.ThreadPool) error, get func() error) error {
+	s := splitScheds[ps.Threads]
+	if s == nil {
+		s = newSched(ps.Threads)
+		splitScheds[ps.Threads] = s
+	}
+	err := func() error {
+		if err := s.run(ps.Caller, init); err != nil {
+			return err
+		}
+		for k, t := range ps.Obs {
+			if t < 0 || t >= ps.Threads {
+				return fmt.Errorf("harness: observation %d assigned to thread %d of %d", k, t, ps.Threads)
+			}
+			k := k
+			if err := s.run(t, func(p threadpool.ThreadPool) error {
+				if p.GetThreadId() != t || p.NumberOfThreads() != ps.Threads {
+					return fmt.Errorf("harness: helper of thread %d holds the pool value of thread %d/%d", t, p.GetThreadId(), p.NumberOfThreads())
+				}
+				return obs(k, p)
+			}); err != nil {
+				return err
+			}
+		}
+		return s.run(ps.Caller, func(threadpool.ThreadPool) error { return get() })
+	}()
+	s.mu.Lock()
+	tainted := s.panicMsg != "" || s.fail != "" || s.jobErr != nil
+	s.mu.Unlock()
+	if tainted || s.aborted() {
+		delete(splitScheds, ps.Threads)
+		s.close()
+	}
+	return err
 }
 
 func (cs *EMCase) runOn(f func(p threadpool.ThreadPool) error) error {
